@@ -36,7 +36,7 @@ BOUNDS = {
     "thorough": "pairs/offset/extend/string L=3..16; connect lists of <=2 L<=16, of 3 L<=9; __lt__ triples L<=7",
 }
 REQUIRED_BUCKETS = {t: ["pair:overlapping", "pair:disjoint", "pair:bridging-operand", "connect:result-bridges",
-                        "connect:shortest-arc-demanded", "extend:wrapped", "extend:whole-ring", "offset:became-bridging",
+                        "connect:shortest-arc-demanded", "connect:multi-exon-operand-over-origin", "extend:wrapped", "extend:whole-ring", "offset:became-bridging",
                         "offset:became-simple"] for t in ("quick", "thorough")}
 
 
@@ -65,6 +65,9 @@ def shards(tier):
             out.append(["connect3", L, lo, min(n, lo + step)])
     for L in range(3, toplt + 1):
         out.append(["lt", L])
+    # gene-like operands (several exons, introns, either strand, exons on both sides of the origin) for connect_locations
+    for L in range(4, (7 if tier == "quick" else 9) + 1):
+        out.append(["connectmulti", L])
     return out
 
 
@@ -109,7 +112,8 @@ def check_connect(L, locs, circular):
     """ locs: ordered list; checks the result for this order, against the result for the
         canonical (sorted) order and idempotence """
     fails = []
-    union = frozenset().union(*[R.bases(l) for l in locs])
+    # a gene-like operand (several exons) is covered as a whole, introns included: connecting never cuts a gene apart
+    union = frozenset().union(*[R.span_bases(l, L) for l in locs])
     wrap = L if circular else None
     try:
         res = connect_locations([l for l in locs], wrap_point=wrap)
@@ -278,6 +282,31 @@ def run_shard(shard):
                     res.fail(case, clause, detail)
                 if res.evals % 997 == 1:
                     res.sample(case)
+    elif kind == "connectmulti":
+        plain = u_loc(L, (1, -1))
+        for circular in (True, False):
+            multis = _multi_exon(L) if L <= 8 else []
+            if circular:
+                multis = multis + ring_multi_exon(L, 1) + ring_multi_exon(L, -1)
+            others = plain if circular else simple(L, 1) + simple(L, -1)
+            lists = itertools.chain(((m,) for m in multis), ((m, o) for m in multis for o in others), ((o, m) for m in multis for o in others))
+            for locs in lists:
+                res.evals += 1
+                res.nontrivial += 1
+                case = {"op": "connect", "L": L, "circular": circular, "locs": [enc(l) for l in locs]}
+                fails, out = check_connect(L, locs, circular)
+                if out is not None and not fails:
+                    if circular and any(R.wraps(l) and len(l.parts) > 2 for l in locs):
+                        res.buckets["connect:multi-exon-operand-over-origin"] += 1
+                    if len(locs) == 2:
+                        _, other = check_connect(L, locs[::-1], circular)
+                        if other is None or enc(other) != enc(out):
+                            fails.append(("connect-order", f"{out} vs {other} for the reversed list"))
+                for clause, detail in fails:
+                    res.fail(case, clause, detail)
+                res.outcomes[("connectmulti", circular, tuple(sorted({c for c, _ in fails})))] += 1
+                if res.evals % 4001 == 1:
+                    res.sample(case)
     elif kind in ("connect2", "connect3"):
         universe = u_loc(L, (1, -1))
         line_universe = simple(L, 1) + simple(L, -1)
@@ -414,6 +443,32 @@ def _multi_exon(L):
                     parts.reverse()
                 out.append(C(parts))
     return out
+
+
+def ring_multi_exon(L, strand):
+    """2- and 3-exon locations laid out from every start position round the ring (total span < L), kept when they reach over
+    the origin; exons cut by the origin become two parts; reverse-strand parts are stored in transcript order"""
+    out = {}
+    for start in range(L):
+        for n_exons in (2, 3):
+            for cuts in itertools.combinations(range(1, L), 2 * n_exons - 1):
+                bounds = (0,) + cuts
+                if start + bounds[-1] <= L:
+                    continue        # does not reach over the origin: covered by _multi_exon
+                parts = []
+                for i in range(0, len(bounds), 2):
+                    lo, hi = start + bounds[i], start + bounds[i + 1]
+                    if lo >= L:
+                        parts.append(F(lo - L, hi - L, strand))
+                    elif hi > L:
+                        parts.extend([F(lo, L, strand), F(0, hi - L, strand)])
+                    else:
+                        parts.append(F(lo, hi, strand))
+                if strand == -1:
+                    parts.reverse()
+                loc = C(parts)
+                out[enc(loc)] = loc
+    return list(out.values())
 
 
 def _redundant_exons(L):
